@@ -92,6 +92,15 @@ theorem pdAll_closed (r : RE) (a : Nat) : ∀ t, t ∈ pdAll r → ∀ x, x ∈ 
       obtain ⟨y, hy, rfl⟩ := h
       exact ⟨y, pd_sub_pdAll r a y hy, rfl⟩
 
+/-- one partial derivative per symbol occurrence -/
+theorem pdAll_length (r : RE) : (pdAll r).length = r.syms.length := by
+  induction r with
+  | eps => rfl
+  | sym _ => rfl
+  | alt a b iha ihb => simp [pdAll, RE.syms, iha, ihb]
+  | seq a b iha ihb => simp [pdAll, RE.syms, iha, ihb]
+  | star a ih => simp [pdAll, RE.syms, ih]
+
 /-- all the expressions of a set are the expression itself or partial derivatives of it -/
 def SubPd (r : RE) (rs : List RE) : Prop := ∀ x, x ∈ rs → x ∈ r :: pdAll r
 
@@ -138,6 +147,10 @@ theorem pairwise_subsets_length (C : List RE) (L : List (List RE)) (hsub : ∀ r
 
 /-- an allowance within which `reachSets` finishes for `r` over `sigma` -/
 def reachFuel (sigma : List Nat) (r : RE) : Nat := 1 + 2 ^ ((pdAll r).length + 1) * sigma.length
+
+/-- … in terms of the size of the expression: `1 + 2 ^ (#symbol occurrences + 1) * #sigma` -/
+theorem reachFuel_eq (sigma : List Nat) (r : RE) : reachFuel sigma r = 1 + 2 ^ (r.syms.length + 1) * sigma.length := by
+  rw [reachFuel, pdAll_length]
 
 theorem next_length_le (sigma : List Nat) (rs : List RE) :
     ((sigma.map (RE.pdSet rs ·)).filter (!·.isEmpty)).length ≤ sigma.length := by
